@@ -289,6 +289,29 @@ func applyStream(cfg applyCfg, n int) {
 			ops = []string{pick(`{"op":"test","path":"","value":1}`, `{"op":"add","path":"/zz","value":[{"q":[1]}]}`, `{"op":"add","path":"/0","value":1}`)}[:rng.Intn(2)]
 			a.indent = pick(" ", "  ", "\t", "   ")
 		}
+		if chance(0.03) {
+			// an array of records with the same member names in the same order; a member is removed from
+			// one record (and maybe added to another): the other records must come out untouched
+			nrec, nkey := 3+rng.Intn(3), 4+rng.Intn(4)
+			var recs []string
+			for r := 0; r < nrec; r++ {
+				var ms []string
+				for k := 0; k < nkey; k++ {
+					ms = append(ms, fmt.Sprintf(`"f%d":%s`, k, pick("1.0", "1e400", `"s"`, "null", fmt.Sprint(r*10+k), "[1]")))
+				}
+				recs = append(recs, "{"+strings.Join(ms, ",")+"}")
+			}
+			doc = []byte(`{"rows":[` + strings.Join(recs, ",") + `]}`)
+			ops = nil
+			for q := 0; q < 1+rng.Intn(3); q++ {
+				switch rng.Intn(3) {
+				case 0, 1:
+					ops = append(ops, fmt.Sprintf(`{"op":"remove","path":"/rows/%d/f%d"}`, rng.Intn(nrec), rng.Intn(nkey-1)))
+				default:
+					ops = append(ops, fmt.Sprintf(`{"op":"add","path":"/rows/%d/extra%d","value":%d}`, rng.Intn(nrec), q, q))
+				}
+			}
+		}
 		patch := joinOps(ops)
 		emitApply(cfg.name, doc, ops, patch, a, cfg.extra)
 	}
@@ -488,6 +511,15 @@ func equalStream(n int) {
 			if chance(0.3) {
 				a, b = []byte(`{"w":[`+string(a)+`]}`), []byte(`{"w":[`+string(b)+`]}`)
 			}
+			if chance(0.5) {
+				a, b = b, a
+			}
+		case r < 0.72:
+			// a lot of white space around a small (often null) root
+			pad := func() string { return strings.Repeat(pick(" ", "\n", "\t", " \r\n"), rng.Intn(120)) }
+			root := pick("null", "null", "1", `"s"`, "[]", "{}", "[null]")
+			a = []byte(pad() + root + pad())
+			b = []byte(pick(root, root, "null", "[]", pad()+root))
 			if chance(0.5) {
 				a, b = b, a
 			}
@@ -707,6 +739,11 @@ func mergeStream(n int) {
 			doc, patch = wideObjectPair(g)
 		}
 		if chance(0.03) {
+			// an ill-formed (or empty) document with the patch null: no argument escapes validation
+			doc = []byte(pick(string(mutate(doc)), "", "   ", "{", `{"a":1}x`, "nul", string(randBytes())))
+			patch = []byte(pick("null", " null\n", "null ", "\tnull"))
+		}
+		if chance(0.03) {
 			patch = mutate(patch)
 		}
 		if chance(0.03) {
@@ -823,6 +860,13 @@ func createStream(n int) {
 			if chance(0.3) {
 				a = mutate(a)
 			}
+		}
+		if chance(0.004) {
+			// a long chain of nested objects with a difference at its end
+			d := int(pick64(40, 999, 1000, 1001, 1002, 1500))
+			chain := func(leaf string) []byte { return []byte(strings.Repeat(`{"n":`, d) + leaf + strings.Repeat("}", d)) }
+			a = chain(pick(`{"keep":1,"drop":2}`, `{"keep":1,"x":{"y":1}}`, `{"keep":1}`))
+			b = chain(pick(`{"keep":1}`, `{"keep":2,"drop":2}`, `{"keep":1,"new":[1]}`))
 		}
 		if chance(0.05) {
 			// an array of objects as a member value: one element loses, gains or changes a member
@@ -1055,6 +1099,25 @@ func validCase(b []byte, full bool) {
 			var aout []byte
 			st2 := guarded(func() { aout, aerr = p0.Apply(b) })
 			fields = append(fields, kv{"api", st1 + b2s(eq) + "," + b2s(derr == nil) + "," + mo.status + "," + co.status + "," + st2 + b2s(aerr == nil) + hx(aout)})
+			// every argument position, the other argument well formed
+			var xs []string
+			partners := []string{"null", " null\n", "{}", `{"a":1}`, "[]", "1"}
+			if !chance(0.3) {
+				partners = partners[:0]
+			}
+			for _, x := range partners {
+				xb := []byte(x)
+				var e1, e2 bool
+				s1 := guarded(func() { e1 = jsonpatch.Equal(b, xb) })
+				s2 := guarded(func() { e2 = jsonpatch.Equal(xb, b) })
+				xs = append(xs, "Equal/1:"+s1+b2s(e1), "Equal/2:"+s2+b2s(e2),
+					"MergePatch/1:"+runMerge(false, b, xb).status, "MergePatch/2:"+runMerge(false, xb, b).status,
+					"MergeMergePatches/1:"+runMerge(true, b, xb).status, "MergeMergePatches/2:"+runMerge(true, xb, b).status,
+					"CreateMergePatch/1:"+runCreate(b, xb).status, "CreateMergePatch/2:"+runCreate(xb, b).status)
+			}
+			if len(xs) > 0 {
+				fields = append(fields, kv{"apix", strings.Join(xs, ";")})
+			}
 		})
 		if stFull != "ok" {
 			fields[1] = kv{"status", stFull}
@@ -1476,6 +1539,17 @@ func cliStream(n int, bin string) {
 				files = append(files, "dir:")
 			}
 			args = append(args, "-p", path)
+		}
+		if chance(0.015) {
+			// a great many patch files that cannot be decoded (an exit status is eight bits wide)
+			bad := filepath.Join(dir, fmt.Sprintf("bad%d.json", i))
+			content := []byte(pick("{", "[1", "nope", `[{"op":"add"}]`))
+			os.WriteFile(bad, content, 0o644)
+			args, files = nil, nil
+			for j := 0; j < int(pick64(255, 256, 257, 512)); j++ {
+				args = append(args, "-p", bad)
+				files = append(files, "file:"+hx(content))
+			}
 		}
 		cmd := exec.Command(bin, args...)
 		cmd.Stdin = bytes.NewReader(doc)
